@@ -79,6 +79,12 @@ def body(chk, db, cfgname):
         r2.ok(site, p.loc(asg[0]), "Vanishing starts true and is cleared exactly when at least one part was created", cfgname)
     else:
         r2.bad(site, p.loc(), "Vanishing is not (true initially, false iff parts.size() > 0): a non-zero function is reported as 0 or an empty one is summed", cfgname)
+    # the symmetries are statements about the *complete* Lehmann sum: a dropped or doubled (inner state, outer state)
+    # pair breaks conj(G_ij(z)) = G_ji(conj z) and the sum rule G_ij(0+) + G_ij(beta-) = -delta_ij
+    r3 = chk.rule("C11-R3", "completeness of the Lehmann sum: residue/pole per pair of eigenstates and the element-level merge walk visit every common inner state exactly once", "F5+F6 formula, F1 pairing", 5)
+    info = lh.check_part_compute(r3, db, cfgname, GFP + "::compute", "C", "CX", +1)
+    if info:
+        lh.check_walk(r3, cfgname, info, GFP + "::compute")
     chk.undecided.append("conj(G_ij(z)) = G_ji(conj z), z*G -> delta_ij, Im G_ii < 0, G(0+)+G(beta-) = -delta_ij, G_ii(beta-) = -<n_i>: value-level consequences of C01 + C09, not decided")
 
 
